@@ -114,6 +114,16 @@ def body(ck):
         ("A2C", lambda: A2C(num_envs=2, num_steps=8), env, ac, 48),
         ("REINFORCE", lambda: REINFORCE(num_envs=2, num_steps=8), env, ac, 48),
     ]
+    # a foreign (Gymnasium) environment behind the adapter: the SAME adapter object is trained on repeatedly and used in between, so
+    # any state the adapter or the wrapped environment keeps from earlier use would leak into the next training
+    try:
+        import gymnasium
+        from lerax.compatibility.gym import GymToLeraxEnv
+        genv = GymToLeraxEnv(gymnasium.make("CartPole-v1"))
+        gac = lambda k: MLPActorCriticPolicy(env=genv, key=k, feature_size=4, feature_width=8, feature_depth=1, value_width=8, value_depth=1, action_width=8, action_depth=1)
+        algos.insert(1, ("PPO/GymToLeraxEnv", lambda: PPO(num_envs=1, num_steps=16, num_epochs=1, num_batches=2), genv, gac, 48))
+    except Exception as e:  # noqa: BLE001
+        ck.notes.append(f"Gymnasium adapter not exercised: {type(e).__name__}: {e}")
     seed = ck.seed
     for name, mk, e, mkpol, total in algos:
         algo = mk()
@@ -123,6 +133,8 @@ def body(ck):
         ck.current_case = {"algo": name, "total_timesteps": total, "seed": seed}
         base = leaves(algo.learn(e, pol, total, key=key))
         ck.case_seen((name, "base") if not same(base, before) else None, sample={"algo": name, "total_timesteps": total, "num_leaves": len(base)})
+        if "Gym" in name:
+            e.reset(key=jr.key(seed + 77))      # unrelated use of the same adapter object between the two trainings
         again = leaves(algo.learn(e, pol, total, key=key))
         ck.case_seen((name, "again")); ck.count("runs:" + name, 2)
         if not same(base, again):
@@ -137,7 +149,9 @@ def body(ck):
                          ("list", lambda: [LoggingCallback(Rec(), name="verif"), ProgressBarCallback(total_timesteps=total)]),
                          ("user-iteration-state", lambda: IterCounter()), ("user-step-state", lambda: StepSummer()),
                          ("list+user", lambda: [LoggingCallback(Rec(), name="verif"), IterCounter(), StepSummer()])]
-        if quick and name in ("A2C", "REINFORCE"):
+        if "Gym" in name:
+            observer_sets = [observer_sets[0]]
+        elif quick and name in ("A2C", "REINFORCE"):
             observer_sets = [observer_sets[0], observer_sets[3]]
         elif quick:
             observer_sets = [observer_sets[0], observer_sets[1], observer_sets[3], observer_sets[5]]
